@@ -32,7 +32,7 @@ LEVEL_TEXT = ("Lean theorems over the rational model of create_range_dim / creat
               "The straight-line code of all five functions around their library calls (step selection, the arange call, "
               "trailing-point guard and threshold, range test, clamp values, slice-bound side and offset, the indexer) is "
               "traced symbolically from the current source on every run and proved equal to the model's kernels for all "
-              "rationals (60 obligations: every way of giving the step, all-positional and all-keyword calls, the lookup "
+              "rationals (62 obligations: every way of giving the step, all-positional and all-keyword calls, the lookup "
               "also on every axis of 2-D / 3-D arrays and on axes carrying a step attribute, with stand-in arrays whose "
               "coordinates are registered in another order than their dimensions); the parameter tables of the five "
               "functions are read off the imported code and proved to extend the documented tables (5 obligations); "
@@ -362,10 +362,12 @@ def _holds_range_free(ctx, inp, out):
     return None
 
 
-def _mk_1d(coords, dtype=None):
+def _mk_1d(coords, dtype=None, cattrs=None):
     import numpy as np
     import xarray as xr
     c = np.asarray(coords, dtype=dtype) if dtype else np.asarray(coords, dtype=float)
+    if cattrs and len(coords):        # the coordinate carries `start` / `stop` / `step` attributes (`_range_attrs`)
+        c = xr.Variable("x", c, attrs=_range_attrs([float(v) for v in coords], cattrs))
     return xr.DataArray(np.zeros(len(coords)), dims=["x"], coords={"x": c})
 
 
@@ -390,12 +392,13 @@ def _lookup_call(arr, dim, v, inp):
 def _impl_index(inp):
     coords = fl(inp["coords"])
     if inp.get("int_axis"):
-        arr = _mk_1d([int(c) for c in coords], dtype="int64")
+        arr = _mk_1d([int(c) for c in coords], dtype="int64", cattrs=inp.get("cattrs"))
     elif inp.get("axis32"):
-        arr = _mk_1d(coords, dtype="float32")
+        arr = _mk_1d(coords, dtype="float32", cattrs=inp.get("cattrs"))
     else:
-        arr = _mk_1d(coords)
+        arr = _mk_1d(coords, cattrs=inp.get("cattrs"))
     before = arr["x"].values.copy()
+    attrs_before = _attrs_of(arr)
     v = f(inp["v"])
     if inp.get("int_query"):
         v = int(v)
@@ -403,7 +406,7 @@ def _impl_index(inp):
     r = _lookup_call(arr, "x", v, inp)
     if isinstance(r, bool) or int(r) != r:
         return {"raise": "crash:not-an-int"}
-    if arr["x"].values.tobytes() != before.tobytes():
+    if arr["x"].values.tobytes() != before.tobytes() or _attrs_of(arr) != attrs_before:
         return {"raise": "crash:coordinates-changed"}
     return {"val": int(r)}
 
@@ -554,6 +557,22 @@ def _axis_step(ax):
     return float(ax[1] - ax[0]) if len(ax) > 1 else 1.0
 
 
+RANGE_ATTRS = ("consistent", "end", "wide", "narrow", "shifted", "eps")
+
+
+def _range_attrs(ax, kind):
+    """`start` / `stop` / `step` attributes on a coordinate, as the library's own extend_dim / set_dim_attrs leave
+    them: describing the coordinates ("consistent": first / last; "end": first / last + step, the exclusive end;
+    "eps": first + 1e-5 / last + step - 1e-5, what extend_dim writes) or stale ("wide", "narrow", "shifted": the
+    array was cropped, extended or re-labelled afterwards).  The answer of a lookup is pinned by the coordinates alone."""
+    step = _axis_step(ax)
+    first, last = float(ax[0]), float(ax[-1])
+    lo, hi = {"consistent": (first, last), "end": (first, last + step), "eps": (first + 1e-5, last + step - 1e-5),
+              "wide": (first - 2 * step, last + 2 * step), "narrow": (first + step / 2, last - step / 2),
+              "shifted": (first + 10 * step, last + 10 * step)}[kind]
+    return {"step": step, "start": lo, "stop": hi, "units": "s"}
+
+
 def _build_array(shape, data, axes, b):
     """The array with dimensions d0, d1, …, the given shape / data / axes, along one of xarray's ordinary
     construction paths (`build` of a case; none of them changes what the array *is*):
@@ -566,6 +585,7 @@ def _build_array(shape, data, axes, b):
       form       "dict" (coords=…), "assign" (assign_coords afterwards, one by one), "dataset" (taken out of a
                  Dataset), "tuples" (coords=[(name, values), …], which also fixes dims)
       step_attr  coordinates handed over as xr.Variable with a `step` attribute (as the range constructors do)
+      range_attrs  … with `start` / `stop` / `step` attributes, consistent or stale (see `_range_attrs`)
       axis_dtype {axis: "float32" | "int64"}
       layout     "F": Fortran-ordered data
       names      the names of the dimensions, axis by axis (a permutation of d0, d1, …: the same name sits on another
@@ -587,6 +607,8 @@ def _build_array(shape, data, axes, b):
         cvals[k] = a
 
     def coord(k):
+        if b.get("range_attrs"):
+            return xr.Variable(dims[k], cvals[k], attrs=_range_attrs(axes[k], b["range_attrs"]))
         if b.get("step_attr"):
             return xr.Variable(dims[k], cvals[k], attrs={"step": _axis_step(axes[k]), "units": "s"})
         return (dims[k], cvals[k])
@@ -772,6 +794,121 @@ FINDING_MATCHERS = {"float32_axis_value_rounds_onto_coordinate": _match_float32_
 
 
 
+
+# ------------------------------------------------------------------ arrays out of the library's own helpers
+def _derive(arrays, arr, dim, chain):
+    """an ordinary way of obtaining an array: the library's own range-adjusting helpers applied to a fresh one
+    (they are object constructors here: whatever array comes out is read back with numpy and the lookups / writes on
+    it are judged by its coordinates alone).  extend_dim leaves eps-shifted `start` / `stop` attributes on the
+    coordinate, crop_dim / sel / isel carry them along unchanged, set_dim_attrs writes what it is told."""
+    for op, a in chain:
+        fn = getattr(arrays, op, None)
+        if op == "sel":
+            arr = arr.sel({dim: slice(a[0], a[1])})
+        elif op == "isel":
+            arr = arr.isel({dim: slice(a[0], a[1])})
+        elif op == "shift":       # re-labelled: the same attributes on other coordinates
+            arr = arr.assign_coords({dim: arr[dim].copy(data=arr[dim].values + a[0])})
+        elif fn is None:
+            return None
+        elif op == "set_dim_attrs":
+            arr = fn(arr, dim, start=a[0], stop=a[1])
+        elif op in ("extend_dim", "crop_dim", "adjust_dim_range"):
+            arr = fn(arr, dim, **{k: v for k, v in zip(("start", "stop"), a) if v is not None})
+        else:
+            return None
+    return arr
+
+
+@guarded
+def _impl_index_derived(inp):
+    import copy
+    import numpy as np
+    import xarray as xr
+    from soundevent import arrays
+    from soundevent.arrays import operations as ops
+    r = inp["range"]
+    start, stop, step = f(r["start"]), f(r["stop"]), f(r["step"])
+    make = {"time": lambda: (arrays.create_time_range(start, stop, step=step), "time"),
+            "frequency": lambda: (arrays.create_frequency_range(start, stop, step), "frequency"),
+            "range": lambda: (arrays.create_range_dim("x", start, stop, step=step), "x")}[r["kind"]]
+    var, dim = make()
+    n0 = var.shape[0]
+    arr = xr.DataArray(np.arange(1.0, 1.0 + n0), dims=[dim], coords={dim: var})
+    try:
+        arr = _derive(arrays, arr, dim, [(op, list(a) if op == "isel" else [None if x is None else f(x) for x in a])
+                                         for op, a in inp["chain"]])
+    except Exception:  # noqa: BLE001 - the helpers are not C16's business: no array, nothing to look up
+        arr = None
+    if arr is None or arr.sizes.get(dim, 0) == 0:
+        return {"val": {"coords": [], "lookups": [], "writes": [], "built": False}}
+    coords = [float(c) for c in np.asarray(arr[dim].values, dtype=float)]
+    n = len(coords)
+    if any(b <= a for a, b in zip(coords, coords[1:])):
+        return {"val": {"coords": [], "lookups": [], "writes": [], "built": False}}
+    attrs = dict(arr[dim].attrs)
+    snap_attrs = _attrs_of(arr)
+    first, last = coords[0], coords[-1]
+    # query values: every coordinate, float neighbours, midpoints; beyond both ends up to two steps; and whatever
+    # numbers the attributes of the coordinate mention (`start`, `stop`, and half-way between them and the real ends)
+    qs = []
+    for i, c in enumerate(coords):
+        qs += [c, ulp_up(c), ulp_down(c)]
+        if i + 1 < n:
+            qs.append(c + (coords[i + 1] - c) / 2)
+    for e in (first, last):
+        for d in (step * 1e-9, step / 4, step / 2, step, 2 * step):
+            qs += [e + d, e - d]
+    for key, edge in (("start", first), ("stop", last)):
+        a = attrs.get(key)
+        if isinstance(a, (int, float, np.floating, np.integer)) and math.isfinite(float(a)):
+            a = float(a)
+            qs += [a, ulp_up(a), ulp_down(a), (a + edge) / 2]
+    out = []
+    for q in dict.fromkeys(x for x in qs if math.isfinite(x)):
+        for raise_ in ((True, False) if not (first <= q <= last) else (True,)):
+            try:
+                res = arrays.get_coord_index(arr, dim, q, raise_error=raise_)
+                o = {"val": int(res)} if int(res) == res else {"raise": "crash:not-an-int"}
+            except Exception as e:  # noqa: BLE001
+                o = _axis_exc(e)
+            out.append([rat(q), o, raise_])
+    if arr[dim].values.astype(float).tobytes() != np.asarray(coords).tobytes() or _attrs_of(arr) != snap_attrs:
+        return {"raise": "crash:array-changed"}
+    # writes at a few of these positions (each into a deep copy)
+    writes = []
+    data0 = np.asarray(arr.values, dtype=float)
+    if data0.ndim == 1:
+        cand = [coords[n // 2], last, first + (coords[1] - first) / 2 if n > 1 else first, last + step / 2, last + step,
+                first - step / 4, first - step] + [float(attrs[k]) for k in ("start", "stop")
+                                                   if isinstance(attrs.get(k), (int, float, np.floating))]
+        for q in dict.fromkeys(x for x in cand if math.isfinite(x)):
+            target = arr.copy(deep=True)
+            rec = {"before": rats(float(x) for x in data0), "query": [[0, rat(q)]], "value": {"scalar": "-7"}}
+            try:
+                res = ops.set_value_at_pos(target, -7.0, **{dim: q})
+                rec["out"] = {"val": rats(float(x) for x in np.asarray(res.values, dtype=float).reshape(-1))}
+            except Exception as e:  # noqa: BLE001
+                rec["out"] = _axis_exc(e)
+            writes.append(rec)
+    return {"val": {"coords": rats(coords), "lookups": out, "writes": writes, "built": True}}
+
+
+def _holds_index_derived(ctx, inp, out):
+    msg = _holds_index_dim(ctx, inp, out)
+    if msg:
+        return msg + " (array out of " + " -> ".join(op for op, _ in inp["chain"]) + ")"
+    v = out["val"]
+    for w in v["writes"]:
+        mo = ctx.model("set_value", {"shape": [len(v["coords"])], "data": w["before"], "axes": [v["coords"]],
+                                     "query": w["query"], "value": w["value"]})
+        o = {k: x for k, x in w["out"].items() if k != "trace"}
+        if o != mo:
+            return (f"set_value_at_pos at {float(frac(w['query'][0][1]))!r} on an array out of "
+                    f"{' -> '.join(op for op, _ in inp['chain'])} answers {jkey_short(o)}, the model {jkey_short(mo)}")
+    return None
+
+
 # ------------------------------------------------------------------ histories (harness/history.py, HISTORIES.md)
 class _Raised:
     """the call of a history step raised: its canonical error (in the error classes of the axis model)"""
@@ -853,7 +990,10 @@ def _ih_build(inp):
     import numpy as np
     import xarray as xr
     coords = np.asarray(fl(inp["coords"]), dtype=float)
-    arr = xr.DataArray(np.arange(1.0, 1.0 + len(coords)), dims=["x"], coords={"x": coords}, attrs={"made": "by-harness"})
+    cvar = coords
+    if inp.get("cattrs") and len(coords):
+        cvar = xr.Variable("x", coords, attrs=_range_attrs([float(c) for c in coords], inp["cattrs"]))
+    arr = xr.DataArray(np.arange(1.0, 1.0 + len(coords)), dims=["x"], coords={"x": cvar}, attrs={"made": "by-harness"})
     return {"arr": arr, "inp": inp}
 
 
@@ -1066,6 +1206,9 @@ OPS = {
     "coord_index_long": Op("coord_index_long", _impl_index_long, holds=_holds_index_dim, model_op="noop",
                            compare=lambda inp, io, mo: None,
                            nontrivial=lambda inp, out: not is_err(out) and len(out["val"]["lookups"]) > 0),
+    "coord_index_derived": Op("coord_index_derived", _impl_index_derived, holds=_holds_index_derived, model_op="noop",
+                              compare=lambda inp, io, mo: None,
+                              nontrivial=lambda inp, out: not is_err(out) and out["val"].get("built", False)),
     # (no separate monitor: the comparison with `coordIndex` is exact and, by C16_index_spec_determines, the same judgement)
     "coord_index_nd": Op("coord_index_nd", _impl_index_nd, model_op="coord_index", to_model=_index_nd_to_model),
     "set_value": Op("set_value", _impl_set, to_model=_set_to_model),
@@ -1245,6 +1388,8 @@ def _index_cases(ctx):
                 extra["raise"], extra["omit_raise"] = True, True
             if len(extra) > 3:
                 yield extra
+            # … and on a coordinate that carries `start` / `stop` / `step` attributes, consistent or stale
+            yield {"coords": rats(ax), "v": rat(q), "raise": rng.random() < 0.5, "cattrs": rng.choice(RANGE_ATTRS)}
     # integer-typed axes and integer queries
     for n in range(1, 6):
         ax = [2 * i - 3 for i in range(n)]
@@ -1356,6 +1501,8 @@ def _builds(rng, nd, n_random):
     if perms:
         out += [{"layout": "F", "transpose": perms[-1]}, {"step_attr": True, "transpose": perms[0]},
                 {"form": "dataset", "transpose": perms[0], "nocoord": [nd - 1]}]
+    out += [{"range_attrs": k} for k in RANGE_ATTRS]
+    out += [{"range_attrs": "wide", "corder": rev, "extra": ["scalar"]}, {"range_attrs": "narrow", "form": "assign"}]
     if nd >= 2:     # the same dimension names on other axes than in the arrays handled before
         rot = [f"d{(k + 1) % nd}" for k in range(nd)]
         out += [{"names": rot}, {"names": rot[::-1], "corder": rev}, {"names": rot, "transpose": perms[0], "extra": ["scalar"]}]
@@ -1377,6 +1524,8 @@ def _builds(rng, nd, n_random):
         b["form"] = rng.choice(["dict", "dict", "assign", "dataset"])
         if rng.random() < 0.3:
             b["step_attr"] = True
+        elif rng.random() < 0.3:
+            b["range_attrs"] = rng.choice(RANGE_ATTRS)
         if rng.random() < 0.3:
             b["layout"] = "F"
         if rng.random() < 0.3:
@@ -1689,8 +1838,13 @@ def _range_history_cases(ctx):
     base += [{"kind": "range", "start": "0", "stop": "1", "step": "1/4"}, {"kind": "time", "start": "0", "stop": "2", "samplerate": "4"},
              {"kind": "frequency", "start": "0", "stop": "1000", "step": "250"}, {"kind": "range", "start": "1/2", "stop": "2", "size": 6}]
     hs = history.sequences(rng, base, ctx.budget(120, 1200), variants=_rh_variants, poison=True)
-    for h in hs:
+    for i, h in enumerate(hs):
+        # every history gets numbers of its own (shifted by a whole offset): whatever an earlier history left behind
+        # in the process cannot be met again, so a failing history is reproduced by replaying it alone
+        off = 8 * (i + 1)
         for st in h["seq"]:
+            c = st["inp"]
+            st["inp"] = _sane_range_case({**c, "start": rat(frac(c["start"]) + off), "stop": rat(frac(c["stop"]) + off)})
             ctx.tally("history:range:" + ("fresh+poison" if st.get("poison") else "fresh"))
     return hs
 
@@ -1710,6 +1864,8 @@ def _index_history_cases(ctx):
             c["omit_raise"] = True
         elif x < 0.5:
             c["qty"] = rng.choice(["np64", "int", "npint"])
+        if rng.random() < 0.4:       # attributes that describe the axis now and go stale with `copy_data`
+            c["cattrs"] = rng.choice(["consistent", "end", "eps"])
         base.append(c)
     hs = history.sequences(rng, base, ctx.budget(160, 1600), variants=_ih_variants, reuse_hows=IH_REUSE)
     for h in hs:
@@ -1740,7 +1896,7 @@ def _set_session_cases(ctx):
                     axes = [list(a) for a in axes]
                     axes[k] = [a0 + i * stp for i in range(shape[k])]
                     how = rng.choice(["setitem", "assign", "copy_data"])
-                    if b.get("step_attr") and how != "setitem":
+                    if (b.get("step_attr") or b.get("range_attrs")) and how != "setitem":
                         how = "setitem"       # (a re-assigned axis drops the attribute that described the old one)
                     st["recoord"] = {"axis": k, "coords": rats(axes[k]), "how": how}
                     ctx.tally("session:recoord:" + how)
@@ -1770,6 +1926,40 @@ def _set_session_cases(ctx):
             yield case
 
 
+
+def _index_derived_cases(ctx):
+    """arrays that went through the library's own extend_dim / crop_dim / adjust_dim_range / set_dim_attrs (and
+    sel / isel / re-labelling afterwards): their coordinates carry `start` / `stop` attributes, eps-shifted or stale"""
+    rng = ctx.rng
+    bases = [("time", 0.0, 1.0, 0.1), ("time", 0.0, 2.0, 0.25), ("frequency", 0.0, 1000.0, 125.0),
+             ("range", 0.5, 1.5, 0.125), ("time", 5.0, 5.5, 0.05)]
+    for kind, a, b, st in bases:
+        span = b - a
+        chains = [
+            [("extend_dim", [a - 3 * st, None])], [("extend_dim", [None, b + 3 * st])],
+            [("extend_dim", [a - 2 * st, b + 2 * st])],
+            [("crop_dim", [a + 2 * st, b - 3 * st])],
+            [("extend_dim", [a - 3 * st, b + 3 * st]), ("crop_dim", [a + st, b - 2 * st])],
+            [("extend_dim", [a - 3 * st, None]), ("crop_dim", [None, b - 4 * st])],
+            [("adjust_dim_range", [a - 3 * st, a + span / 2])], [("adjust_dim_range", [a + 2 * st, b + 3 * st])],
+            [("adjust_dim_range", [a - 2 * st, b + 2 * st])],
+            [("set_dim_attrs", [a, b])], [("set_dim_attrs", [a - 2 * st, b + 2 * st])],
+            [("set_dim_attrs", [a + 2 * st, b - 3 * st])],
+            [("set_dim_attrs", [a, b]), ("isel", [2, -2])], [("set_dim_attrs", [a, b]), ("sel", [a + st, b - 2 * st])],
+            [("extend_dim", [a - 2 * st, b + 2 * st]), ("isel", [1, -3])],
+            [("extend_dim", [None, b + 2 * st]), ("shift", [10 * st])],
+            [("set_dim_attrs", [a, b]), ("shift", [-3 * st])],
+        ]
+        for _ in range(ctx.budget(2, 20)):
+            lo, hi = sorted(rng.sample(range(-4, int(span / st) + 5), 2))
+            second = rng.choice([("isel", [1, -1]), ("isel", [0, -2]), ("shift", [st]), ("shift", [-2 * st])])
+            chains.append([(rng.choice(["adjust_dim_range", "extend_dim"]), [a + lo * st, a + hi * st]), second])
+        for ch in chains:
+            yield {"range": {"kind": kind, "start": rat(a), "stop": rat(b), "step": rat(st)},
+                   "chain": [[op, list(args) if op == "isel" else [None if x is None else rat(float(x)) for x in args]]
+                             for op, args in ch]}
+
+
 def _stage_ranges(ctx):
     ctx.run_cases(OPS["range_dim"], _range_grid_cases())
     ctx.exhaustive["range_dim grid"] = "4 starts x 5 dyadic steps x stop = start + m*step/4, m = 0..24 (every quotient fraction)"
@@ -1788,6 +1978,15 @@ def _stage_index_dim(ctx):
     ctx.exhaustive["coord_index_dim"] = ("axes built by create_range_dim / create_time_range / create_frequency_range with "
                                          "steps 0.1, 0.01, 1/3, 1/44100, ...: every coordinate, its two float neighbours and "
                                          "every midpoint looked up, judged by the Lean index statement")
+
+
+def _stage_index_derived(ctx):
+    ctx.run_cases(OPS["coord_index_derived"], _index_derived_cases(ctx))
+    ctx.exhaustive["coord_index_derived"] = ("time / frequency / plain range axes put through extend_dim, crop_dim, "
+                                             "adjust_dim_range, set_dim_attrs (consistent and stale `start` / `stop`), "
+                                             "then isel / sel / re-labelling: every coordinate, float neighbours, "
+                                             "midpoints, up to two steps beyond both ends and the values the "
+                                             "attributes mention looked up (raise and clamp) and written at")
 
 
 def _stage_index_nd(ctx):
@@ -1893,7 +2092,7 @@ def _stage_histories(ctx):
 
 def _stage_kernels(ctx):
     """Tie 1b: the kernels of the five functions, traced from the current source, equal the model's kernels
-    for all rationals (60 obligations; `C16_range_kernel`, `C16_index_kernel`, `C16_indexer_kernel`,
+    for all rationals (62 obligations; `C16_range_kernel`, `C16_index_kernel`, `C16_indexer_kernel`,
     `C16_set_kernel` connect the kernels with the model the other theorems are about)"""
     from .. import c16_sym
     ctx.stage("kernel-range", c16_sym.range_ties, ctx)
@@ -1910,6 +2109,7 @@ def run(ctx):
     ctx.stage("range-free-monitor", lambda: ctx.run_cases(OPS["range_free"], _range_free_cases(ctx)))
     ctx.stage("coord-index", _stage_index, ctx)
     ctx.stage("coord-index-on-range-dims", _stage_index_dim, ctx)
+    ctx.stage("coord-index-derived-arrays", _stage_index_derived, ctx)
     ctx.stage("coord-index-nd", _stage_index_nd, ctx)
     ctx.stage("set-value", _stage_set, ctx)
     ctx.stage("set-value-construction-paths", _stage_set_built, ctx)
@@ -1922,6 +2122,7 @@ def search(ctx, failures):
     ctx.run_cases(OPS["range_dim"], _range_random_cases(ctx.rng, 5000))
     ctx.run_cases(OPS["coord_index"], _index_cases(ctx))
     ctx.run_cases(OPS["coord_index_dim"], _index_dim_cases(ctx))
+    ctx.run_cases(OPS["coord_index_derived"], _index_derived_cases(ctx))
     ctx.run_cases(OPS["coord_index_nd"], _index_nd_cases(ctx, 12))
     ctx.run_cases(OPS["set_value"], _set_cases(ctx))
     ctx.run_cases(OPS["set_value"], _set_cases_built(ctx))
